@@ -301,7 +301,7 @@ func TestVerifC02TLSTamper(t *testing.T) {
 						res := memconn.RunTamper(t, c02Setup(cli, srv, dir, short), payload, p.writes, pol, c02Cut, e, false, &b.Buf)
 						if cls := b.Tamper("tls", res, e, L, c); cls != "" && res.Changed {
 							c.Outcome = cls
-							b.Distinct(c, p.name, dir, e, cls)
+							b.Distinct(c, p.name, dir, e, res.Truncation)
 						}
 					}
 				}
